@@ -53,7 +53,8 @@
 /* two hooks per element: `heap` is anchored at `hn`, its swap partner `heap2` at `hn2`
  * (an element is in at most one heap at a time) */
 struct elem {
-    int key;
+    long long key;      /* what the comparison functions read: the priority, negated when `neg` */
+    int neg;
     struct cstl_heap_node hn;
     long pad;
     struct cstl_heap_node hn2;
@@ -68,9 +69,28 @@ static struct cstl_heap * HP = &heap_obj[0], * HP2 = &heap_obj[1];
 #define heap2 (*HP2)
 static struct elem pool[NE];
 
+/*
+ * The two heap objects are initialised with DIFFERENT comparison functions: object 0 orders by
+ * the stored key, object 1 by its negation.  A swap exchanges the comparison functions together
+ * with the contents; the harness tracks which function each object must have by now (cmp_neg[])
+ * and stores the priority negated when the object addressed is supposed to order by the negation,
+ * so that under a correct library every heap is a max-heap on the priorities the script names.
+ * A swap that does not move the comparison function (or the offset) shows as a wrong order.
+ */
+static int cmp_neg[2];      /* per OBJECT: must its comparison function be the negating one? */
+#define ADDR_NEG (cmp_neg[HP == &heap_obj[0] ? 0 : 1])
+#define PRIO(e) ((e)->neg ? -(e)->key : (e)->key)
+
 static int cmp_elem(const void * a, const void * b, void * p)
 {
-    const int x = ((const struct elem *)a)->key, y = ((const struct elem *)b)->key;
+    const long long x = ((const struct elem *)a)->key, y = ((const struct elem *)b)->key;
+    h_priv_check(p, 1);
+    return h_cmp_result(x, y);
+}
+
+static int cmp_rev(const void * a, const void * b, void * p)
+{
+    const long long x = -((const struct elem *)a)->key, y = -((const struct elem *)b)->key;
     h_priv_check(p, 1);
     return h_cmp_result(x, y);
 }
@@ -113,7 +133,7 @@ static void print_elem(const void * e)
 {
     long id = id_of_elem(e);
     if (id > 0) {
-        outf("%ld:%d", id, pool[id - 1].key);
+        outf("%ld:%d", id, (int)PRIO(&pool[id - 1]));
     } else {
         outf("%ld", id);
     }
@@ -202,13 +222,13 @@ static void dump(int full)
         for (i = 0; i < tail; i++) {
             long id = id_of_bn(queue[i].n);
             outf(i ? ",%llu:%ld:%d" : "%llu:%ld:%d", queue[i].loc, id,
-                 id > 0 ? pool[id - 1].key : 0);
+                 id > 0 ? (int)PRIO(&pool[id - 1]) : 0);
         }
         outf("]");
     } else {
         for (i = 0; i < tail; i++) {
             long id = id_of_bn(queue[i].n);
-            long long k = id > 0 ? pool[id - 1].key : 0;
+            long long k = id > 0 ? PRIO(&pool[id - 1]) : 0;
             dg = (dg * 1000003ULL + (queue[i].loc % P) * 8191ULL
                   + ((unsigned long long)id % P) * 131ULL
                   + (unsigned long long)(k + 2147483648LL) % P) % P;
@@ -231,7 +251,9 @@ static void reset(void)
     H_POISON_OBJ(heap);
     H_POISON_OBJ(heap2);
     cstl_heap_init(&heap, cmp_elem, H_PRIV(1), offsetof(struct elem, hn));
-    cstl_heap_init(&heap2, cmp_elem, H_PRIV(1), offsetof(struct elem, hn2));
+    cstl_heap_init(&heap2, cmp_rev, H_PRIV(1), offsetof(struct elem, hn2));
+    cmp_neg[0] = 0;
+    cmp_neg[1] = 1;
     memset(&z, 0, sizeof(z));
     cstl_heap_init(&z, cmp_elem, H_PRIV(1), offsetof(struct elem, hn));
     if (memcmp(&z, &twin, sizeof(z)) != 0) {
@@ -282,7 +304,8 @@ static void bulk(size_t n, long nprio, unsigned long seed)
         long k;
         x = (x * 1103515245UL + 12345UL) % 2147483648UL;
         k = (long)((x / 256) % (unsigned long)nprio);
-        big[i].key = (int)k;
+        big[i].neg = ADDR_NEG;
+        big[i].key = big[i].neg ? -(long long)k : (long long)k;
         cstl_heap_push(&heap, &big[i]);
         cnt[k]++;
         if (k > mx) {
@@ -294,7 +317,7 @@ static void bulk(size_t n, long nprio, unsigned long seed)
             break;
         }
         g = cstl_heap_get(&heap);
-        if (g == NULL || g < big || g >= big + n || g->key != (int)mx) {
+        if (g == NULL || g < big || g >= big + n || PRIO(g) != mx) {
             what = "get-not-a-held-maximum";
             break;
         }
@@ -317,7 +340,7 @@ static void bulk(size_t n, long nprio, unsigned long seed)
             what = "pop-returned-element-twice";
             break;
         }
-        if (mx < 0 || e->key != (int)mx) {
+        if (mx < 0 || PRIO(e) != mx) {
             what = "pop-not-a-maximum";
             break;
         }
@@ -335,7 +358,7 @@ static void bulk(size_t n, long nprio, unsigned long seed)
     if (what != NULL) {
         outf("bad step=%zu %s", step, what);
         /* the big pool goes away: start over with an empty heap */
-        cstl_heap_init(&heap, cmp_elem, H_PRIV(1), heap.bt.off - offsetof(struct cstl_heap_node, bn));
+        cstl_heap_init(&heap, ADDR_NEG ? cmp_rev : cmp_elem, H_PRIV(1), heap.bt.off - offsetof(struct cstl_heap_node, bn));
     } else {
         outf("ok ck=%llu", ck);
     }
@@ -381,7 +404,8 @@ static void op(int argc, char ** argv)
 
     if (!strcmp(o, "push") && argc == 3 && elem_of(argv[2])) {
         struct elem * e = elem_of(argv[2]);
-        e->key = (int)h_int(argv[1]);
+        e->neg = ADDR_NEG;
+        e->key = e->neg ? -(long long)(int)h_int(argv[1]) : (long long)(int)h_int(argv[1]);
         cstl_heap_push(&heap, e);
         outf("ok");
     } else if (!strcmp(o, "pop") && argc == 1) {
@@ -417,6 +441,11 @@ static void op(int argc, char ** argv)
     } else if (!strcmp(o, "swap") && argc == 1) {
         /* exchange the heap with its (initially empty) partner, which is anchored at the other hook */
         cstl_heap_swap(&heap, &heap2);
+        {
+            const int t = cmp_neg[0];       /* the comparison functions trade places with the contents */
+            cmp_neg[0] = cmp_neg[1];
+            cmp_neg[1] = t;
+        }
         outf("ok");
     } else if (!strcmp(o, "alt") && argc == 1) {
         struct cstl_heap * t = HP;
